@@ -22,6 +22,42 @@ fn rule_sets() -> Vec<(&'static str, Vec<Rule>)> {
         ("nested-first", vec![Rule { pattern: "release/1/*".into(), label: "beta", number: None, mode: "commit" }, Rule { pattern: "release/*".into(), label: "rc", number: None, mode: "tag" }, Rule { pattern: "*".into(), label: "alpha", number: None, mode: "tag" }]),
     ]
 }
+const N_BASE_SETS: usize = 6;
+const MANY_COUNTS: [usize; 12] = [4, 8, 9, 16, 17, 32, 33, 64, 65, 128, 129, 300];
+
+/// long rule lists: `n` rules none of which matches the probe names except those planted at a chosen position. Three plantings
+/// per length: the deciding rules (exact `develop`, `release/*`, `*`, in that order) at the very end; the same at the front
+/// followed by rules that contradict them (the first match wins however far away the contradiction is); and spread out
+/// (first, middle, last). Fillers are exact names and wildcard directories that share prefixes with the probes.
+fn many_rule_sets() -> Vec<(&'static str, Vec<Rule>)> {
+    let filler = |k: usize| -> Rule {
+        match k % 4 {
+            0 => Rule { pattern: format!("team-{k}/*"), label: "beta", number: None, mode: "commit" },
+            1 => Rule { pattern: format!("develop-{k}"), label: "rc", number: Some(k as u32), mode: "tag" },
+            2 => Rule { pattern: format!("release-{k}/*"), label: "alpha", number: None, mode: "tag" },
+            _ => Rule { pattern: format!("releas/{k}/*"), label: "beta", number: None, mode: "commit" },
+        }
+    };
+    let deciding = || vec![Rule { pattern: "develop".into(), label: "rc", number: Some(9), mode: "tag" }, Rule { pattern: "release/*".into(), label: "beta", number: None, mode: "commit" }, Rule { pattern: "*".into(), label: "alpha", number: None, mode: "tag" }];
+    let contra = || vec![Rule { pattern: "develop".into(), label: "alpha", number: Some(1), mode: "commit" }, Rule { pattern: "release/*".into(), label: "rc", number: None, mode: "tag" }, Rule { pattern: "*".into(), label: "beta", number: None, mode: "commit" }];
+    let mut v: Vec<(&'static str, Vec<Rule>)> = vec![];
+    for &n in &MANY_COUNTS {
+        let fill: Vec<Rule> = (0..n.saturating_sub(3)).map(filler).collect();
+        let mut end = fill.clone(); end.extend(deciding());
+        let mut front = deciding(); front.extend(fill.clone()); front.extend(contra());
+        let d = deciding(); let mut spread = vec![d[0].clone()]; spread.extend(fill[..fill.len() / 2].iter().cloned()); spread.push(d[1].clone()); spread.extend(fill[fill.len() / 2..].iter().cloned()); spread.push(d[2].clone());
+        v.push((Box::leak(format!("many-{n}-end").into_boxed_str()), end));
+        v.push((Box::leak(format!("many-{n}-front").into_boxed_str()), front));
+        v.push((Box::leak(format!("many-{n}-spread").into_boxed_str()), spread));
+    }
+    v
+}
+const MANY_PROBES: [&str; 12] = ["develop", "release/3", "release/x", "main", "feature/12/y", "develop-5", "team-4/8", "release-6/2", "releas/7/11", "releas/8/11", "team-4", "release"];
+
+/// branch names of every length 1..=300 in three shapes (plain, under `release/`, a digit segment at the far end): the branch
+/// id must be R-SIP of the *whole* name and rule / number extraction must not depend on the length
+static LEN_BRANCHES: std::sync::OnceLock<Vec<String>> = std::sync::OnceLock::new();
+fn len_branches() -> &'static Vec<String> { LEN_BRANCHES.get_or_init(|| (1..=300usize).flat_map(|n| { let body: String = (0..n).map(|i| (b'a' + (i % 26) as u8) as char).collect(); [body.clone(), format!("release/{body}"), format!("feature/{body}/77")] }).collect()) }
 
 // incl. tags that carry a post / dev / epoch part without a pre-release
 const TAGS: [&str; 9] = ["1.2.3", "0.0.0", "1.2.3-rc.1", "1.2.3-alpha.5.post.2", "1.2.3.post3", "2!1.2.3", "1.2.3-post.4", "1.2.3-epoch.2.post.4.dev.9", "1.2.3-dev.9"];
@@ -49,7 +85,26 @@ const N_BRANCHES: usize = BASE_BRANCHES.len() + DEEP_BRANCHES.len() + REF_BRANCH
 /// grid branches: `release/<g>` and `feature/<g>/x` for every value g of the dense numeric grid (numpool), index N_BRANCHES..
 static GRID_BRANCHES: std::sync::OnceLock<Vec<String>> = std::sync::OnceLock::new();
 fn grid_branches() -> &'static Vec<String> { GRID_BRANCHES.get_or_init(|| numpool::grid().into_iter().flat_map(|g| [format!("release/{g}"), format!("feature/{g}/x")]).collect()) }
-fn branch_name(i: usize) -> Option<&'static str> { if i < BASE_BRANCHES.len() { BASE_BRANCHES[i] } else if i < BASE_BRANCHES.len() + DEEP_BRANCHES.len() { Some(DEEP_BRANCHES[i - BASE_BRANCHES.len()]) } else if i < N_BRANCHES { Some(REF_BRANCHES[i - BASE_BRANCHES.len() - DEEP_BRANCHES.len()]) } else { Some(grid_branches()[i - N_BRANCHES].as_str()) } }
+const PROBE_BASE: usize = 1 << 20;
+const LEN_BASE: usize = 1 << 21;
+fn branch_name(i: usize) -> Option<&'static str> { if i >= LEN_BASE { Some(len_branches()[i - LEN_BASE].as_str()) } else if i >= PROBE_BASE { Some(MANY_PROBES[i - PROBE_BASE]) } else if i < BASE_BRANCHES.len() { BASE_BRANCHES[i] } else if i < BASE_BRANCHES.len() + DEEP_BRANCHES.len() { Some(DEEP_BRANCHES[i - BASE_BRANCHES.len()]) } else if i < N_BRANCHES { Some(REF_BRANCHES[i - BASE_BRANCHES.len() - DEEP_BRANCHES.len()]) } else { Some(grid_branches()[i - N_BRANCHES].as_str()) } }
+
+/// long rule lists x probe names x (ahead | dirty) x post mode unset / forced, on a final and a pre-release tag
+fn many_space(sets: &[(&'static str, Vec<Rule>)]) -> Vec<Case> {
+    let mut v = vec![];
+    for rules in N_BASE_SETS..sets.len() { for b in 0..MANY_PROBES.len() { for tag in [0usize, 2] { for (distance, dirty_flag) in [(Some(2u64), 0usize), (Some(0), 1)] { for mode in [None, Some("commit")] {
+        v.push(Case { tag, branch: PROBE_BASE + b, distance, dirty_flag, post: None, label: None, num: None, mode, rules, hash_len: None, stdin: false });
+    }}}}}
+    v
+}
+/// name-length sweep: every name x default rules / star-first x hash length unset / 10 / 3
+fn len_space() -> Vec<Case> {
+    let mut v = vec![];
+    for b in 0..len_branches().len() { for rules in [0usize, 2] { for hash_len in [None, Some(3usize), Some(9)] {
+        v.push(Case { tag: 0, branch: LEN_BASE + b, distance: Some(1), dirty_flag: 0, post: None, label: None, num: None, mode: None, rules, hash_len, stdin: false });
+    }}}
+    v
+}
 
 /// dense numeric grid in each numeric input in turn: --distance, --post, --pre-release-num, the branch's digit segment, on two
 /// tags (final, pre-release with post), clean / dirty, both post modes, default rules
@@ -157,7 +212,9 @@ fn judge(ctx: &Ctx, c: &Case, tags: &[(RVars, String)], sets: &[(&'static str, V
 fn main() {
     let ctx = Ctx::from_args("C04", "model_checking");
     let now = ctx.pinned_now();
-    let sets = rule_sets();
+    let mut sets = rule_sets();
+    assert_eq!(sets.len(), N_BASE_SETS);
+    sets.extend(many_rule_sets());
     // R-SIP self-test against the value documented in zerv's README (`main` -> alpha.14467...)
     if flow::hash_str("main") != 14467718814232352107 { machinery_error("R-SIP self-test failed"); }
     let tags: Vec<(RVars, String)> = TAGS.iter().map(|t| tag_vars(t)).collect();
@@ -169,7 +226,7 @@ fn main() {
         // re-judge through the full space is the authoritative replay: run the quick space restricted to this argv
         let mut st = Stats::default();
         for c in space(true, &sets) { if argv(&c, &sets) == args { judge(&ctx, &c, &tags, &sets, now, &mut st); } }
-        for c in hash_space().into_iter().chain(grid_space()) { if argv(&c, &sets) == args { judge(&ctx, &c, &tags, &sets, now, &mut st); } }
+        for c in hash_space().into_iter().chain(grid_space()).chain(many_space(&sets)).chain(len_space()) { if argv(&c, &sets) == args { judge(&ctx, &c, &tags, &sets, now, &mut st); } }
         finish(&ctx, Coverage::default());
     }
     use rayon::prelude::*;
@@ -179,14 +236,18 @@ fn main() {
     let s2 = hs.par_iter().map(|c| { let mut st = Stats::default(); st.inc("hash_len_runs"); judge(&ctx, c, &tags, &sets, now, &mut st); st }).reduce(Stats::default, Stats::merge);
     let gsp = grid_space();
     let s2g = gsp.par_iter().map(|c| { let mut st = Stats::default(); st.inc("grid_runs"); judge(&ctx, c, &tags, &sets, now, &mut st); st }).reduce(Stats::default, Stats::merge);
-    let s2 = s2.merge(s2g);
+    let msp = many_space(&sets);
+    let s2m = msp.par_iter().map(|c| { let mut st = Stats::default(); st.inc("many_rules_runs"); judge(&ctx, c, &tags, &sets, now, &mut st); st }).reduce(Stats::default, Stats::merge);
+    let lsp = len_space();
+    let s2l = lsp.par_iter().map(|c| { let mut st = Stats::default(); st.inc("name_length_runs"); judge(&ctx, c, &tags, &sets, now, &mut st); st }).reduce(Stats::default, Stats::merge);
+    let s2 = s2.merge(s2g).merge(s2m).merge(s2l);
     // BranchRules::resolve_for_branch directly (second observation point)
     let mut s3 = Stats::default();
     {
         use zerv::cli::flow::branch_rules::BranchRules;
         for (name, rules) in &sets {
             let br = BranchRules::from_str(&flow::rules_ron(rules)).unwrap_or_else(|e| machinery_error(&format!("rule set {name}: {e}")));
-            for b in (0..N_BRANCHES).filter_map(branch_name) {
+            for b in (0..N_BRANCHES).chain(PROBE_BASE..PROBE_BASE + MANY_PROBES.len()).chain((LEN_BASE..LEN_BASE + len_branches().len()).step_by(7)).filter_map(branch_name) {
                 s3.inc("resolve_for_branch_cases");
                 let got = br.resolve_for_branch(Some(b));
                 let e = flow::expect(&RVars { major: Some(1), ..Default::default() }, rules, &FlowInput { branch: Some(b.to_string()), distance: Some(1), hash_len: 5, ..Default::default() }, now);
@@ -219,12 +280,12 @@ fn main() {
 
     let all = s1.merge(s2).merge(s3).merge(s4.clone());
     let mut cov = Coverage::default();
-    cov.states = (cases.len() + hs.len() + gsp.len()) as u64 + all.get("resolve_for_branch_cases");
+    cov.states = (cases.len() + hs.len() + gsp.len() + msp.len() + lsp.len()) as u64 + all.get("resolve_for_branch_cases");
     cov.transitions = all.get("runs");
     cov.evaluations = all.get("runs") + all.get("resolve_for_branch_cases");
     cov.traces_validated = cov.evaluations;
     cov.distinct_nontrivial = all.get("active_cases");
-    cov.rule = format!("full product tag{TAGS:?} x {} branch names (incl. prefix-without-slash, digit segments, zero-padded, u32-overflowing, non-ASCII, absent; 30 spelled like refs / remotes / CI variables and 40 with the number 1..10 segments deep, on a reduced flag product) x distance[none,0,1,5] x dirty[unset,--dirty,--no-dirty,--clean] x --post x --pre-release-label x --pre-release-num x --post-mode x 6 rule sets{}, run through run_flow_pipeline with --output-format zerv on source none{} and compared field by field with R-FLOW; hash lengths 0..11 x branches x 2 tags against R-SIP; BranchRules::resolve_for_branch directly; dense numeric grid (0..=300, neighbourhoods of 2^8..2^64 and 10^2..10^20) as --distance, --post, --pre-release-num and as the digit segment of release/<g> and feature/<g>/x ({} runs). non-trivial = active (dirty or ahead) cases", N_BRANCHES, if ctx.quick() { " (quick: 4 tags, distance without 5)" } else { "" }, if ctx.quick() { " (+ a strided stdin slice)" } else { " and stdin" }, gsp.len());
+    cov.rule = format!("full product tag{TAGS:?} x {} branch names (incl. prefix-without-slash, digit segments, zero-padded, u32-overflowing, non-ASCII, absent; 30 spelled like refs / remotes / CI variables and 40 with the number 1..10 segments deep, on a reduced flag product) x distance[none,0,1,5] x dirty[unset,--dirty,--no-dirty,--clean] x --post x --pre-release-label x --pre-release-num x --post-mode x 6 rule sets{}, run through run_flow_pipeline with --output-format zerv on source none{} and compared field by field with R-FLOW; hash lengths 0..11 x branches x 2 tags against R-SIP; BranchRules::resolve_for_branch directly; dense numeric grid (0..=300, neighbourhoods of 2^8..2^64 and 10^2..10^20) as --distance, --post, --pre-release-num and as the digit segment of release/<g> and feature/<g>/x ({} runs); rule lists of 4..300 rules (deciding rules last / first followed by contradicting ones / spread out, fillers sharing prefixes with the probes) x 12 probe names x ahead|dirty x post mode ({} runs, also through resolve_for_branch); names of every length 1..=300 in three shapes x 2 rule sets x hash length unset/3/9 ({} runs). non-trivial = active (dirty or ahead) cases", N_BRANCHES, if ctx.quick() { " (quick: 4 tags, distance without 5)" } else { "" }, if ctx.quick() { " (+ a strided stdin slice)" } else { " and stdin" }, gsp.len(), msp.len(), lsp.len());
     cov.exhaustive = true;
     cov.samples = vec![json!(argv(&cases[cases.len() / 2], &sets)), json!(argv(&cases[cases.len() - 3], &sets)), json!(argv(&hs[17], &sets))];
     cov.set("clause_counts", all.to_json());
@@ -238,7 +299,7 @@ fn space(quick: bool, sets: &[(&'static str, Vec<Rule>)]) -> Vec<Case> {
     let tags: Vec<usize> = if quick { vec![0, 2, 3, 6] } else { (0..TAGS.len()).collect() };
     let distances: Vec<Option<u64>> = if quick { vec![None, Some(0), Some(1)] } else { vec![None, Some(0), Some(1), Some(5)] };
     let mut n = 0usize;
-    for &tag in &tags { for branch in 0..N_BRANCHES { for &distance in &distances { for dirty_flag in 0..4 { for post in [None, Some(7u64)] { for label in [None, Some("rc")] { for num in [None, Some(3u32)] { for mode in [None, Some("tag"), Some("commit")] { for rules in 0..sets.len() {
+    for &tag in &tags { for branch in 0..N_BRANCHES { for &distance in &distances { for dirty_flag in 0..4 { for post in [None, Some(7u64)] { for label in [None, Some("rc")] { for num in [None, Some(3u32)] { for mode in [None, Some("tag"), Some("commit")] { for rules in 0..N_BASE_SETS {
         if branch >= BASE_BRANCHES.len() && !(distance == Some(1) && dirty_flag == 0 && post.is_none() && label.is_none() && num.is_none()) { continue; }
         n += 1;
         v.push(Case { tag, branch, distance, dirty_flag, post, label, num, mode, rules, hash_len: None, stdin: false });
